@@ -23,7 +23,7 @@ META = {
         'fail and a plain OPEN must succeed again after CLOSE; (2) the table of ranges BASIC reported as locked and not yet unlocked/closed '
         'must stay pairwise non-overlapping (a <= d and c <= b; whole-file lock overlaps everything), same or different numbers; (3) LOCK of '
         'a range overlapping a held one must give exactly error 70; (4) GET/PUT of a record inside a range held through another number must '
-        'fail; (5) a successful UNLOCK must name exactly the bounds of a range held through that number. Directed core in both tiers: all 13 '
+        'fail, with an explicit record number or without one (record after the last one accessed through that number, record 1 on a fresh number); (5) a successful UNLOCK must name exactly the bounds of a range held through that number. Directed core in both tiers: all 13 '
         'Allen relations x both acquisition orders x same/different number x default/SHARED opens, the D4 shape (#1 holds 5 TO 6, LOCK #2, '
         '4 TO 7), whole-file locks, unlock with 8 perturbed bounds, OUTPUT/APPEND x second-open matrix; plus seeded adaptive histories.'),
     'level_note': (
@@ -31,7 +31,7 @@ META = {
         'non-overlapping LOCK, an exact UNLOCK, an access outside foreign locks, or a second OPEN among INPUT/RANDOM numbers succeeds '
         '(sharing matrix of ACCESS/LOCK clauses); which error a refused OPEN/GET/PUT/UNLOCK gives; locks of a CLOSEd number (the model '
         'drops them); access inside one\'s own lock; range bounds on sequential-mode numbers (only whole-file LOCK/UNLOCK is issued '
-        'there); implicit record positions (C25); reversed or out-of-range bounds; bounds above 2^24 (record numbers are single precision in GW-BASIC, so e.g. 26228589 and 26228588 are the same bound: observed, UNLOCK with the aliased bound succeeds). Internal lock-set inspection is informational '
+        'there); the record position after a refused access (the model forgets it; no implicit access until an explicit one succeeds); reversed or out-of-range bounds; bounds above 2^24 (record numbers are single precision in GW-BASIC, so e.g. 26228589 and 26228588 are the same bound: observed, UNLOCK with the aliased bound succeeds). Internal lock-set inspection is informational '
         '(skipped silently if the attributes are renamed). Two GW-BASIC-compatible behaviours contradict the literal statement and are '
         'reported under their own keys: OPEN FOR INPUT/RANDOM of a file open FOR OUTPUT/APPEND is accepted, and GET inside a lock held '
         'through such an OUTPUT/APPEND number is accepted (tests/basic/unsorted/LockFilesOutput model from GW-BASIC 3.23).'),
@@ -42,6 +42,7 @@ META = {
     'require_counters': {'any': ['locks_granted', 'locks_refused', 'unlocks_granted', 'unlocks_refused_other_bounds',
                                  'access_refused_in_foreign_lock', 'second_open_refused', 'histories_with_3_numbers',
                                  'opens_with_other_spelling_of_open_file', 'locks_refused_across_spellings',
+                                 'implicit_access_refused_in_foreign_lock', 'implicit_first_access_of_fresh_number',
                                  'allen_relations_exercised']},
     'timeout': {'quick': 900, 'thorough': 10800},
 }
@@ -106,6 +107,7 @@ class History(object):
         self.max_open = 0
         self.lock_requests = 0
         self.differently_spelled = False
+        self.pos = {}         # R-mode number -> last record accessed successfully (0 = none yet), None = not pinned
 
     # -- helpers ------------------------------------------------------------------------
     def fail(self, key, what):
@@ -171,6 +173,7 @@ class History(object):
                               'file open FOR %s as #%d was opened again by %r' % ({'O': 'OUTPUT', 'A': 'APPEND'}[first], holders[0], open_cmd(op)))
                 if op.get('keep'):
                     self.open[n] = op
+                    self.pos[n] = 0
                 else:
                     self.ex(b'CLOSE #%d' % n)
             else:
@@ -178,6 +181,7 @@ class History(object):
             return
         if code == 0:
             self.open[n] = op
+            self.pos[n] = 0
             self.res.count('opens_granted')
             if len(self.open) == 3:
                 self.res.count('histories_with_3_numbers')
@@ -194,6 +198,7 @@ class History(object):
         if code:
             self.fail('stmt:unexpected-error:close', 'CLOSE #%d -> %r' % (n, out))
         del self.open[n]
+        self.pos.pop(n, None)
         self.table.drop_number(n)
 
     def do_lock(self, op):
@@ -262,21 +267,43 @@ class History(object):
                 self.res.count('unlocks_refused_other_bounds')
 
     def _access(self, op, verb):
+        """
+        GET / PUT with an explicit record number, or without one: then the record addressed is the one after the
+        last record this number accessed successfully (record 1 on a fresh number). After a refused access the
+        position is not pinned, so the model forgets it and no implicit access is issued until an explicit one succeeds.
+        """
         n = op['f']
         if n not in self.open or self.open[n]['mode'] != 'R':
             return
-        r = op['r']
+        implicit = op.get('r') is None
+        if implicit:
+            if self.pos.get(n) is None:
+                self.res.count('implicit_access_skipped_position_unknown')
+                return
+            r = self.pos[n] + 1
+            cmd = b'%s #%d' % (verb, n)
+            how = 'implicit-'
+            self.res.count('implicit_accesses')
+            if self.pos[n] == 0:
+                self.res.count('implicit_first_access_of_fresh_number')
+        else:
+            r = op['r']
+            cmd = b'%s #%d, %d' % (verb, n, r)
+            how = ''
         foreign = self.table.locked_by_other(n, r)
-        code, out = self.ex(b'%s #%d, %d' % (verb, n, r))
+        code, out = self.ex(cmd)
+        self.pos[n] = r if code == 0 else None
         if foreign:
             hn, hr = foreign[0]
             if code == 0:
                 if verb == b'GET' and self.open[hn]['mode'] in 'OA':
                     self.note(DEV_GET, '#%d (open FOR %s) holds %r; GET #%d, %d succeeded' % (hn, self.open[hn]['mode'], hr, n, r))
                     return
-                self.fail('access:%s-inside-range-locked-through-another-number-accepted' % verb.decode().lower(),
-                          '#%d holds %r; %s #%d, %d succeeded' % (hn, hr, verb.decode(), n, r))
+                self.fail('access:%s%s-inside-range-locked-through-another-number-accepted' % (how, verb.decode().lower()),
+                          '#%d holds %r; %r reached record %d and succeeded' % (hn, hr, cmd, r))
             self.res.count('access_refused_in_foreign_lock')
+            if implicit:
+                self.res.count('implicit_access_refused_in_foreign_lock')
         else:
             if code == 0:
                 self.res.count('access_granted_outside_foreign_locks')
@@ -389,12 +416,29 @@ def random_history(rng, h):
             h.step({'op': 'unlock', 'f': n, 'range': r, 'form': rng.choice(['to', 'single'])})
         else:
             held = [r for m, r in h.table.held if r != M.WHOLE and r[0] <= 40]
+            verb = 'put' if rng.random() < 0.5 else 'get'
+            foreign = [r for m, r in h.table.held if m != n and r != M.WHOLE and r[0] <= 40]
+            y = rng.random()
+            if y < 0.3 and h.pos.get(n) is not None:
+                # no record number: the record after the last one accessed through this number
+                h.step({'op': verb, 'f': n, 'r': None})
+                continue
+            if y < 0.5 and foreign:
+                # walk into a foreign lock without naming the record: position just before it, then implicit access
+                a, b = rng.choice(foreign)
+                if a > 1:
+                    h.step({'op': 'get', 'f': n, 'r': a - 1})
+                if a > 1 or h.pos.get(n) == 0:
+                    h.step({'op': verb, 'f': n, 'r': None})
+                    if rng.random() < 0.5:
+                        h.step({'op': 'put' if verb == 'get' else 'get', 'f': n, 'r': None})
+                    continue
             if held and rng.random() < 0.6:
                 a, b = rng.choice(held)
                 r = rng.choice([a, b, rng.randint(a, b), max(1, a - 1), b + 1])
             else:
                 r = rng.randint(1, 16)
-            h.step({'op': 'put' if rng.random() < 0.5 else 'get', 'f': n, 'r': r})
+            h.step({'op': verb, 'f': n, 'r': r})
     for n in sorted(h.open):
         h.step({'op': 'close', 'f': n})
 
@@ -426,6 +470,10 @@ def directed_scripts(part):
                         for r in (a, b, (a + b) // 2):
                             s += [{'op': 'get', 'f': o, 'r': r}, {'op': 'put', 'f': o, 'r': r}]
                         s += [{'op': 'get', 'f': o, 'r': max(1, a - 1)}, {'op': 'put', 'f': o, 'r': b + 1}]
+                        # the same without naming the record: position on a-1, then GET / PUT with no record number
+                        s += [{'op': 'get', 'f': o, 'r': a - 1}, {'op': 'get', 'f': o, 'r': None},
+                              {'op': 'put', 'f': o, 'r': a - 1}, {'op': 'put', 'f': o, 'r': None},
+                              {'op': 'get', 'f': o, 'r': a - 2}, {'op': 'put', 'f': o, 'r': None}, {'op': 'get', 'f': o, 'r': None}]
                         # unlock with other bounds, through the other number, then exactly
                         for p in ((a, b + 1), (a + 1, b), (a - 1, b), (a, b - 1), (a, a), (b, b), (a - 1, b + 1), M.WHOLE):
                             if p == M.WHOLE or (p[0] >= 1 and p[1] >= p[0]):
@@ -454,6 +502,15 @@ def directed_scripts(part):
                                 {'op': 'unlock', 'f': 2, 'range': M.WHOLE}, {'op': 'unlock', 'f': 1, 'range': M.WHOLE},
                                 {'op': 'lock', 'f': 2, 'range': (3, 4)}, {'op': 'lock', 'f': 1, 'range': M.WHOLE},
                                 {'op': 'close', 'f': 2}, {'op': 'lock', 'f': 1, 'range': M.WHOLE}, {'op': 'close', 'f': 1}])
+            # first access of a fresh number without a record number (addresses record 1), then walking on
+            for held in ((1, 1), (1, 2), (2, 2), M.WHOLE):
+                for verb in ('get', 'put'):
+                    scripts.append([_op_open(1, lock=fam), _op_open(2, lock=fam), {'op': 'lock', 'f': 1, 'range': held},
+                                    _op_open(3, lock=fam), {'op': verb, 'f': 3, 'r': None}, {'op': verb, 'f': 2, 'r': None},
+                                    {'op': verb, 'f': 2, 'r': None}, {'op': 'get', 'f': 1, 'r': None},
+                                    {'op': 'unlock', 'f': 1, 'range': held}, {'op': 'get', 'f': 3, 'r': 1}, {'op': 'lock', 'f': 1, 'range': (2, 3)},
+                                    {'op': verb, 'f': 3, 'r': None}, {'op': 'get', 'f': 2, 'r': 3}, {'op': 'get', 'f': 2, 'r': 1}, {'op': 'put', 'f': 2, 'r': None},
+                                    {'op': 'close', 'f': 1}, {'op': 'close', 'f': 2}, {'op': 'close', 'f': 3}])
             # a sequential-mode number next to a random one
             scripts.append([_op_open(1, lock=fam), _op_open(2, mode='I', lock=fam), {'op': 'lock', 'f': 2, 'range': M.WHOLE},
                             {'op': 'lock', 'f': 1, 'range': (2, 3)}, {'op': 'get', 'f': 1, 'r': 2}, {'op': 'put', 'f': 1, 'r': 5},
